@@ -125,6 +125,7 @@ class C19(Check):
         plan["first_gap"] = rng.choice([0.0, 0.001, 0.3])
         plan["reads"] = [rng.choice([0.2, 0.2, 1.0]) for _ in range(rng.choice([0, 1, 2, 4]))]
         plan["eof"] = rng.random() < 0.5
+        plan["late_drain"] = rng.choice([0.0, 0.0, 0.05])
         plan["srv_think"] = rng.choice([0.0, 0.0, 0.0005, 0.01])
         plan["half_close"] = rng.random() < 0.5
         plan["lat"] = rng.choice([[0.0001, 0.0004], [0.0005, 0.002]])
@@ -222,6 +223,9 @@ class C19(Check):
                 for T in plan["reads"]:
                     await self._read(tr, T, rec, got)
                 await done
+                if plan.get("late_drain"):
+                    # a reader that comes late: complete lines and the peer's close are already buffered
+                    await asyncio.sleep(plan["late_drain"])
                 # drain: long timeouts until everything arrived (or EOF / error)
                 for _ in range(len(msgs) + 2):
                     out = await self._read(tr, 2.0, rec, got)
